@@ -6,7 +6,7 @@
 (* Clauses that start with "MACHINERY:" mean the event itself is unusable  *)
 (* (a wrong hint) - they are never reported as violations of the property. *)
 (***************************************************************************)
-EXTENDS CGSem, CGLint, CGTxApi
+EXTENDS CGSem, CGLint, CGTxLoops
 
 RECURSIVE TFISetTx(_,_)
 TFISetTx(c, S) == LET P == S \cup UNION {FiSet(c, i) : i \in S} IN IF P = S THEN S ELSE TFISetTx(c, P)
@@ -56,6 +56,11 @@ Judge_limit_fanin(e) ==
 Judge_limit_fanout(e) ==
   IF e.exc # "" THEN Raised(e) ELSE
   Machinery(e.c) \cup Machinery(e.r) \cup IOClauses(e.c, e.r)
+  \* as built: the result is one of the circuits the loop can produce under some choice of the loads it moves
+  \cup (IF e.c.n <= 9 /\ WellFormedRec(e.c) /\ WellFormedRec(e.r) /\ e.k >= 2 /\ MaxFanout(e.c) <= 4
+           /\ Cardinality({i \in 1..e.c.n : Cardinality(FoSet(e.c, i)) > e.k}) <= 2
+           /\ ToNamed(e.r) \notin LimitFanoutResults(ToNamed(e.c), e.k)
+        THEN {"DRIFT:limit_fanout_result_not_among_the_as_built_model_results"} ELSE {})
   \cup (IF MaxFanout(e.r) <= e.k THEN {} ELSE {"fanout_bound"})
   \cup PreservesAll(e.c, e.r)
 
@@ -78,6 +83,11 @@ Judge_insert_registers(e) ==
   IF e.exc # "" THEN Raised(e) ELSE
   LET c == e.c  r == e.r  rt == e.rt IN
   Machinery(c) \cup Machinery(rt)
+  \cup (IF c.n <= 10 /\ WellFormedRec(c) /\ WellFormedRec(r) /\ c.acyc
+           /\ LET m == IF e.latch THEN InsertRegistersModel(ToNamed(c), e.k, [type |-> "lat", ins |-> {"d"}, outs |-> {"q"}], "d", "q", <<>>)
+                       ELSE InsertRegistersModel(ToNamed(c), e.k, [type |-> "ff", ins |-> {"clk", "d"}, outs |-> {"q"}], "d", "q", << <<"clk", "clk">> >>)
+              IN ~m.ok \/ ToNamed(r) # m.st
+        THEN {"DRIFT:insert_registers_differs_from_as_built_model"} ELSE {})
   \cup (IF rt.acyc /\ TransparentOf(rt, r, "d", "q") THEN {} ELSE {"MACHINERY:transparent_hint_wrong"})
   \cup (IF OutputNames(c) = OutputNames(r) THEN {} ELSE {"outputs_changed"})
   \cup (IF InputNames(c) \subseteq InputNames(r) THEN {} ELSE {"inputs_lost"})
@@ -96,6 +106,9 @@ Judge_insert_registers(e) ==
 Judge_acyclic_unroll_acyclic(e) ==
   IF e.exc # "" THEN Raised(e) ELSE
   Machinery(e.c) \cup Machinery(e.r) \cup IOClauses(e.c, e.r)
+  \cup (IF e.c.n <= 10 /\ WellFormedRec(e.c) /\ WellFormedRec(e.r) /\ e.c.acyc /\ Len(e.c.bbs) = 0
+           /\ ToNamed(e.r) # AcyclicUnrollModel(ToNamed(e.c), {})
+        THEN {"DRIFT:acyclic_unroll_differs_from_as_built_model"} ELSE {})
   \cup (IF e.r.acyc THEN {} ELSE {"result_cyclic"})
   \cup (IF LintClean(e.r) THEN {} ELSE {"result_not_lint_clean"})
   \cup (IF ~(e.c.acyc /\ e.r.acyc) THEN {}
@@ -371,8 +384,17 @@ Judge_acyclic_unroll_cyclic(e) ==
   IF e.exc # "" THEN Raised(e) ELSE
   LET c == e.c  r == e.r
       A == InputNames(r) \ InputNames(c)
+      hintOK == HintUsable(c, A) /\ (\A a \in A : HasName(c, AuxHint(c, A)[a]))
+      Fh == {AuxHint(c, A)[a] : a \in A}
   IN (IF WellFormedRec(c) /\ WellFormedRec(r) THEN {} ELSE {"MACHINERY:malformed_record"})
      \cup (IF r.acyc /\ ~IsTopo(r) THEN {"MACHINERY:not_topological"} ELSE {})
+     \* as built: the feedback nodes (read from the aux_in_<f> names) are a set the heuristic can return under some
+     \* tie-break, and the circuit is the one the construction program builds for that set
+     \cup (IF c.n <= 10 /\ WellFormedRec(c) /\ WellFormedRec(r) /\ hintOK /\ Fh \notin FasNodeSets(ToNamed(c))
+           THEN {"DRIFT:feedback_set_not_among_the_as_built_heuristic_results"} ELSE {})
+     \cup (IF c.n <= 10 /\ WellFormedRec(c) /\ WellFormedRec(r) /\ hintOK /\ Cardinality(Fh) <= 3
+              /\ ToNamed(r) # AcyclicUnrollModel(ToNamed(c), Fh)
+           THEN {"DRIFT:acyclic_unroll_differs_from_as_built_model"} ELSE {})
      \cup (IF r.acyc THEN {} ELSE {"result_cyclic"})
      \cup (IF LintClean(r) THEN {} ELSE {"result_not_lint_clean"})
      \cup (IF OutputNames(r) = OutputNames(c) THEN {} ELSE {"outputs_changed"})
